@@ -693,30 +693,48 @@ func MakeTracesDependancyGraph(startEpoch int64, endEpoch int64, myid int64) map
 		"endEpoch":      endEpoch,
 		"searchText":    "*",
 		"queryLanguage": "Splunk QL",
+		"size":          1000,
 	}
-	requestBodyJSON, err := json.Marshal(requestBody)
-	if err != nil {
-		fmt.Printf("MakeTracesDependancyGraph: Error marshaling request body=%v, Error=%v", requestBody, err)
-		return nil
-	}
-	ctx := &fasthttp.RequestCtx{}
-	ctx.Request.SetBody(requestBodyJSON)
 
-	ctx.Request.Header.SetMethod("POST")
-	pipesearch.ProcessPipeSearchRequest(ctx, myid)
+	// A search returns one page of spans (100 without a size). A parent and its
+	// child can be on different pages, so all the spans are collected first.
+	spans := make([]*structs.Span, 0)
+	from := 0
 
-	rawSpanData := structs.RawSpanData{}
-	if err := json.Unmarshal(ctx.Response.Body(), &rawSpanData); err != nil {
-		log.Errorf("MakeTracesDependancyGraph: could not unmarshal json body, err=%v", err)
-		return nil
+	for {
+		requestBody["from"] = from
+		requestBodyJSON, err := json.Marshal(requestBody)
+		if err != nil {
+			fmt.Printf("MakeTracesDependancyGraph: Error marshaling request body=%v, Error=%v", requestBody, err)
+			return nil
+		}
+		ctx := &fasthttp.RequestCtx{}
+		ctx.Request.SetBody(requestBodyJSON)
+
+		ctx.Request.Header.SetMethod("POST")
+		pipesearch.ProcessPipeSearchRequest(ctx, myid)
+
+		rawSpanData := structs.RawSpanData{}
+		if err := json.Unmarshal(ctx.Response.Body(), &rawSpanData); err != nil {
+			log.Errorf("MakeTracesDependancyGraph: could not unmarshal json body, err=%v", err)
+			return nil
+		}
+
+		if len(rawSpanData.Hits.Spans) == 0 {
+			break
+		}
+
+		spans = append(spans, rawSpanData.Hits.Spans...)
+		from += 1000
 	}
+
 	spanIdToServiceName := make(map[string]string)
 	dependencyMatrix := make(map[string]map[string]int)
 
-	for _, span := range rawSpanData.Hits.Spans {
+	for _, span := range spans {
 		spanIdToServiceName[span.SpanID] = span.Service
 	}
-	for _, span := range rawSpanData.Hits.Spans {
+	for _, span := range spans {
 		if span.ParentSpanID == "" {
 			continue
 		}
